@@ -313,3 +313,53 @@ func withHelpers(f *ssa.Function) []*ssa.Function {
 	})
 	return out
 }
+
+// propPackages: the packages whose code implements each property (the scope of the generic error-discipline rules).
+var propPackages = map[string][]string{
+	"C01": {"client/proxy", "server/proxy", "pkg/util/limit", "pkg/util/net", "pkg/util/vhost", "client/visitor"},
+	"C02": {"pkg/util/vhost", "pkg/plugin/client", "server/proxy"},
+	"C03": {"pkg/proto/udp", "server/proxy", "client/proxy", "client/visitor", "pkg/config/legacy"},
+	"C04": {"server", "pkg/auth", "pkg/config/v1/validation", "pkg/ssh"},
+	"C05": {"pkg/transport", "pkg/util/net", "client", "server", "pkg/config/legacy", "pkg/config/v1"},
+	"C06": {"pkg/util/vhost", "pkg/util/tcpmux", "pkg/util/http", "server/proxy", "server/group"},
+	"C07": {"pkg/util/vhost", "pkg/util/tcpmux", "pkg/util/net", "pkg/plugin/client", "server/group", "server/proxy"},
+	"C08": {"server/visitor", "pkg/nathole", "server", "pkg/util/net", "client/visitor", "client/proxy"},
+	"C09": {"server/ports", "server/proxy", "server/group", "pkg/config/types", "pkg/config/legacy"},
+	"C10": {"server", "server/proxy", "server/group", "server/visitor", "server/ports"},
+	"C11": {"server", "server/proxy", "server/group", "pkg/util/vhost"},
+	"C12": {"server", "server/proxy"},
+	"C13": {"server/group", "server/proxy", "pkg/util/vhost"},
+	"C14": {"client", "server", "pkg/util/wait"},
+	"C15": {"pkg/plugin/server", "server"},
+	"C17": {"pkg/msg", "server", "pkg/util/net"},
+	"C18": {"pkg/config"},
+	"C19": {"client", "client/proxy", "client/visitor", "client/health"},
+	"C20": {"pkg/nathole"},
+}
+
+var wrapped bool
+
+// Finalize completes the registry (call once, before any property runs).
+func Finalize() { wrapWithErrorDiscipline() }
+
+// wrapWithErrorDiscipline adds the two generic error-handling rules, scoped to the property's packages, to every
+// property that has a scope (C16 runs them over the whole module as R14/R15).
+func wrapWithErrorDiscipline() {
+	if wrapped {
+		return
+	}
+	wrapped = true
+	for id, pr := range Registry {
+		pkgs, ok := propPackages[id]
+		if !ok {
+			continue
+		}
+		run := pr.Run
+		pr.Run = func(c *engine.Ctx) {
+			run(c)
+			checkDroppedErrors(c, "RE1", pkgs...)
+			checkLostErrors(c, "RE2", pkgs...)
+		}
+		pr.Explanation += " Generic error discipline in the property's packages: (RE1) the error result of a call to a function of this module is used, the drops confirmed by reading are tabled and may not grow; (RE2) an error value that is assigned, built or loaded is read on some path (no assignment to a shadowing err, no dead store that falls through to a nil return)."
+	}
+}
